@@ -72,6 +72,7 @@ func (s *Scanner) Next() (*Lexeme, *jerr.JApiError) {
 			}
 		}
 
+		verifStep(s, c)
 		je := s.step(s, c) // evaluate byte
 		if je != nil {
 			return nil, je
